@@ -79,6 +79,61 @@ def check_matrix(M, best):
     return None
 
 
+def recorded_greedy(best, S):
+    """The behaviour that the recorded findings of this property describe, as an executable reference: each precision in turn takes its
+    top-`target` channels by row score among ALL channels (ignoring the current assignment), marks its own surplus as unassigned, and a second
+    pass refills deficits from the unassigned channels.  A violation produced by an assignment that equals this reference is the recorded
+    finding; a violation produced by any OTHER assignment is a different defect and is reported (key prefix `unrecorded|`).
+    S: P x C nested list of pairwise distinct numbers -> P x C 0/1 nested list"""
+    P, C = len(S), len(S[0])
+    cur = [max(range(P), key=lambda p_: S[p_][c]) for c in range(C)]
+    order = [sorted(range(C), key=lambda c: -S[p_][c]) for p_ in range(P)]
+    new = list(cur)
+    for p_ in range(P):
+        t = int(best[p_])
+        mine = [c for c in range(C) if cur[c] == p_]
+        if t == 0:
+            for c in mine:
+                new[c] = -1
+            continue
+        for c in order[p_][:t]:
+            new[c] = p_
+        for c in mine[t:]:
+            new[c] = -1
+    for p_ in range(P):
+        t = int(best[p_])
+        have = sum(1 for v in new if v == p_)
+        if have < t:
+            free = [c for c in order[p_] if new[c] == -1][:t - have]
+            for c in free:
+                new[c] = p_
+    return [[1.0 if new[c] == p_ else 0.0 for c in range(C)] for p_ in range(P)]
+
+
+class _spy_reassign:
+    """records every call of the real _reassign_precisions made by optimize_prec_assignment and whether its result equals the recorded greedy"""
+
+    def __enter__(self):
+        import plinio.methods.mps.utils as U
+        self.U, self.orig, self.as_recorded = U, U._reassign_precisions, True
+
+        def wrapper(best, scores):
+            out = self.orig(best, scores)
+            try:
+                ref = recorded_greedy([int(v) for v in best.tolist()], [[float(v) for v in row] for row in scores.tolist()])
+                if [[float(v) for v in row] for row in out.tolist()] != ref:
+                    self.as_recorded = False
+            except Exception:
+                self.as_recorded = False
+            return out
+        U._reassign_precisions = wrapper
+        return self
+
+    def __exit__(self, *a):
+        self.U._reassign_precisions = self.orig
+        return False
+
+
 def check_promotion(M, best, cur):
     """cur: current precision index per channel (arg-max of the scores).  When the targets are reachable from the current counts by
     moving channels to HIGHER precisions only (which is all optimize_prec_assignment ever asks for), no channel may end up lower.
@@ -136,12 +191,12 @@ def observe_optimize(m):
         m(m._input_example)
         before_bits = _bits(m)
         before_cost = float(m.get_cost('ne16'))
-    with contextlib.redirect_stdout(io.StringIO()):
+    with contextlib.redirect_stdout(io.StringIO()), _spy_reassign() as spy:
         optimize_prec_assignment(m, 'ne16')
     with torch.no_grad():
         after_bits = _bits(m)
         after_cost = float(m.get_cost('ne16'))
-    info = {'before': before_bits, 'after': after_bits, 'cost_before': before_cost, 'cost_after': after_cost}
+    info = {'before': before_bits, 'after': after_bits, 'cost_before': before_cost, 'cost_after': after_cost, 'reassign_as_recorded': spy.as_recorded}
     for l in before_bits:
         b0, b1 = before_bits[l], after_bits[l]
         if isinstance(b0, list):
@@ -218,7 +273,7 @@ def _run_counts(res, p, selftest):
         if prob is None:
             res.validated += 1
             continue
-        key = f'fn:optimize_prec_assignment|obs:{prob[0]}|C={C}' + ('|selftest' if selftest else '')
+        key = ('' if info.get('reassign_as_recorded', True) else 'unrecorded|') + f'fn:optimize_prec_assignment|obs:{prob[0]}|C={C}' + ('|selftest' if selftest else '')
         if any(v['key'] == key for v in res.violations):
             continue
         rec = {'what_kind': 'optimize', 'w': w, 'C': C, 'wseed': wseed, 'alphas': alphas, 'observable': prob[0], 'key': key, 'what': f'optimize_prec_assignment with channel counts {counts}: {prob[1]}'[:400]}
@@ -284,7 +339,9 @@ def _run_reassign(res, p, selftest):
             if n <= 2:
                 res.sample({'P': P, 'C': C, 'best': best, 'scores': scores, 'assignment': M.tolist()})
             continue
-        key = f'fn:_reassign_precisions|obs:{prob[0]}|P={P},C={C}' + ksuffix + ('|selftest' if selftest else '')
+        sc = [[float(Fraction(str(v))) if not isinstance(v, (int, float, Fraction)) else float(v) for v in scores[i * C:(i + 1) * C]] for i in range(P)]
+        as_rec = [[float(v) for v in row] for row in M.tolist()] == recorded_greedy(best, sc)
+        key = ('' if as_rec else 'unrecorded|') + f'fn:_reassign_precisions|obs:{prob[0]}|P={P},C={C}' + ksuffix + ('|selftest' if selftest else '')
         if any(v['key'] == key for v in res.violations):
             continue
         rec = {'what_kind': 'reassign', 'P': P, 'C': C, 'best': best, 'scores': scores, 'observable': prob[0], 'key': key,
@@ -336,7 +393,7 @@ def _run_optimize(res, p, selftest):
             res.validated += 1
             continue
         bef = info.get('before', {}).get('c0') if isinstance(info, dict) else None
-        key = f'fn:optimize_prec_assignment|obs:{prob[0]}|w={"-".join(str(b) for b in w)},C={C}' + (f'|before={"-".join(str(b) for b in bef)}' if isinstance(bef, list) else '') + ('|selftest' if selftest else '')
+        key = ('' if (not isinstance(info, dict) or info.get('reassign_as_recorded', True)) else 'unrecorded|') + f'fn:optimize_prec_assignment|obs:{prob[0]}|w={"-".join(str(b) for b in w)},C={C}' + (f'|before={"-".join(str(b) for b in bef)}' if isinstance(bef, list) else '') + ('|selftest' if selftest else '')
         if any(v['key'] == key for v in res.violations):
             continue
         rec = {'what_kind': 'optimize', 'w': w, 'C': C, 'wseed': wseed, 'alphas': alphas, 'observable': prob[0], 'key': key, 'what': f'optimize_prec_assignment: {prob[1]} ({info})'[:500]}
